@@ -110,7 +110,7 @@ func init() {
 		return &SeqCheck{Prop: "C07",
 			Ideal: famGraph(3, 2, 5), IdealDeep: famGraph(3, 2, 7), IdealProps: []string{"P_C07"},
 			Proc:     &ProcCheck{Prop: "C07", Scenarios: "SeqScenarios", IdealInvs: []string{"Serializable"}, Only: []string{"C07_final"}},
-			GenQuick: famGraph(3, 1, 4), GenThorough: famGraph(3, 2, 6), SampleQuick: 300, Probes: probeEdges,
+			GenQuick: famGraph(3, 1, 4), GenThorough: famGraph(3, 2, 6), SampleQuick: 300, Probes: append(append([]emitted{}, probeEdges...), probeLongChains...),
 			// chains (sequence A B C, also with repeated ids) over tasks and over childless epics
 			GenMore: []SeqModel{
 				with(famGraph(3, 0, 5), func(m *SeqModel) {
@@ -131,7 +131,7 @@ func init() {
 	}
 	registry["C08"] = func() Check {
 		return &SeqCheck{Prop: "C08",
-			Ideal: famReady(3, 2, 5), IdealDeep: famReady(3, 2, 6), IdealProps: []string{"P_C08"}, IdealInvs: []string{"CodeReadyIsSpecReady"}, Probes: probeClaimOrder,
+			Ideal: famReady(3, 2, 5), IdealDeep: famReady(3, 2, 6), IdealProps: []string{"P_C08"}, IdealInvs: []string{"CodeReadyIsSpecReady"}, Probes: append(append([]emitted{}, probeClaimOrder...), probeManyChildren...),
 			Proc:     &ProcCheck{Prop: "C08", Scenarios: "ClaimScenarios", IdealInvs: []string{"Serializable"}, Only: []string{"C08_serial"}, MaxRunsQuick: 500},
 			GenQuick: famReady(2, 2, 4), GenThorough: famReady(3, 2, 6), SampleQuick: 120,
 			CraftQuick: famCraft(700, "claim", "list_ready"), CraftThorough: famCraft(4000, "claim", "list_ready"),
@@ -173,7 +173,7 @@ func init() {
 	}
 	registry["C15"] = func() Check {
 		return &SeqCheck{Prop: "C15",
-			Ideal: famGraph(3, 2, 5), IdealDeep: famGraph(3, 2, 7), IdealProps: []string{"P_C15"}, IdealInvs: []string{"CodeWaitsIsSpecWaits"}, Probes: append(append([]emitted{}, probeD10...), probeWaits...),
+			Ideal: famGraph(3, 2, 5), IdealDeep: famGraph(3, 2, 7), IdealProps: []string{"P_C15"}, IdealInvs: []string{"CodeWaitsIsSpecWaits"}, Probes: append(append(append([]emitted{}, probeD10...), probeWaits...), probeLongChains...),
 			Proc:     &ProcCheck{Prop: "C15", Scenarios: "SeqScenarios", IdealInvs: []string{"Serializable"}, Only: []string{"C15_final"}},
 			GenQuick: famGraph(2, 2, 6), GenThorough: famGraph(3, 2, 7), SampleQuick: 200,
 			// chains given in ONE command (sequence A B C, also with a repeated id)
@@ -196,13 +196,13 @@ func init() {
 	}
 	registry["C20"] = func() Check {
 		return &SeqCheck{Prop: "C20",
-			Ideal: famResults(4), IdealDeep: famResults(5), IdealProps: []string{"P_C20"}, Probes: append(append([]emitted{}, probeCompact...), probeEvidence...),
+			Ideal: famResults(4), IdealDeep: famResults(5), IdealProps: []string{"P_C20"}, Probes: append(append(append([]emitted{}, probeCompact...), probeEvidence...), probeManyResults...),
 			GenQuick: famResults(3), GenThorough: famResults(5), SampleQuick: 100,
 			Sim: famResults(10), SimNumQuick: 60, SimNumThorough: 1000}
 	}
 	registry["C05"] = func() Check {
 		return &SeqCheck{Prop: "C05",
-			Ideal: famCompact(4), IdealDeep: famCompact(6), IdealProps: []string{"P_C05"}, Probes: append(append([]emitted{}, probeCompact...), probeClaimOrder...),
+			Ideal: famCompact(4), IdealDeep: famCompact(6), IdealProps: []string{"P_C05"}, Probes: append(append(append(append([]emitted{}, probeCompact...), probeClaimOrder...), probeClockBack...), probeManyResults...),
 			GenQuick: famCompact(4), GenThorough: famCompact(6), SampleQuick: 150,
 			// dependency edges (task and epic) across compactions
 			GenMore: []SeqModel{
